@@ -104,7 +104,15 @@ def run_case(case):
         rows = run(d2)
         counters["tolerance_runs"] = counters.get("tolerance_runs", 0) + 1
         if rows is None:
-            viol.append({"sig": "tolerance_loses_all_mappings", "witness": {"objective_tolerance": t_obj, "resource_usage_tolerance": t_res, "exact": exact}})
+            # which of the two tolerances is responsible?
+            which = "objective_tolerance" if t_res == 0 else ("resource_usage_tolerance" if t_obj == 0 else None)
+            if which is None:
+                d3 = copy.deepcopy(d)
+                d3["mapper"]["objective_tolerance"] = t_obj
+                d3["mapper"]["resource_usage_tolerance"] = 0
+                which = "objective_tolerance" if run(d3) is None else "resource_usage_tolerance_or_both"
+            viol.append({"sig": "tolerance_loses_all_mappings:" + which,
+                         "witness": {"objective_tolerance": t_obj, "resource_usage_tolerance": t_res, "exact": exact, "spec": gs.summary(d)}})
             continue
         best = min(H.objective(r, metric) for r in rows)
         if best > exact * (1 + t_obj) and not H.close(best, exact * (1 + t_obj)):
